@@ -16,6 +16,8 @@ def run(tier, rep):
         if stats["errors"]:
             # an invariant of the design itself failing is a machinery problem (the spec is ours), not a verdict on the code
             raise MachineryError("Fusion.tla violates its own invariants: " + stats["errors"][0][:400])
+        if not q:
+            rep.cov["apalache_inductive_invariant"] = apalache_induction(wd)
         hists, st2 = fusionpipe.histories_from_tlc(wd, 2)
         rep.add_tlc(st2, "history generation (all histories of length 2)")
         exhaustive2 = len(hists)
@@ -49,3 +51,23 @@ def run(tier, rep):
         for t, h in keep[:2] + keep[-1:]:
             rep.sample({"history": h, "recorded": t})
         rep.assumptions += ["functional components are compute units bound with an op; configurations differ by name only"]
+
+
+def apalache_induction(wd):
+    """Thorough add-on: the legality invariants are inductive (spec/apalache/FusionInd.tla), which removes the history-length bound of the
+    TLC run for the *design*; reported in the evidence only (the verdict on the code comes from trace validation)."""
+    import os
+    import shutil
+    import subprocess
+    from common import SPEC
+    if not shutil.which("apalache-mc"):
+        return "apalache-mc not available"
+    out = {}
+    for name, args in (("initial", ["--init=Init", "--inv=IndInv", "--length=0"]), ("step", ["--init=IndInit", "--inv=IndInv", "--length=1"])):
+        try:
+            p = subprocess.run(["apalache-mc", "check"] + args + ["--out-dir=" + os.path.join(wd, "apa"), os.path.join(SPEC, "apalache", "FusionInd.tla")],
+                               capture_output=True, text=True, timeout=900, cwd=wd)
+            out[name] = "NoError" if "The outcome is: NoError" in p.stdout else "outcome: " + " ".join(l for l in p.stdout.splitlines() if "outcome" in l or "EXITCODE" in l)[-200:]
+        except subprocess.TimeoutExpired:
+            out[name] = "timeout (900 s)"
+    return out
